@@ -24,6 +24,7 @@ struct Conf {
   bool keep_hills, well_tempered, expand;
   double lower, upper;        // grid of d
   bool rebin = false;         // restart onto a narrower grid [1.5,2.5] with rebinGrids on (keepHills)
+  bool gridblock = false;     // the grid [lower,upper] is given by a grid { } block of the bias; the variables' own boundaries are narrower
 };
 
 static std::string conf_text(Conf const &c, bool rebinned = false)
@@ -34,11 +35,11 @@ static std::string conf_text(Conf const &c, bool rebinned = false)
   } else if (c.kind == 3) {
     s += "colvar {\n name d\n width 0.5\n distanceVec {\n group1 { atomNumbers 1 }\n group2 { atomNumbers 2 }\n }\n}\n";
   } else {
-    s += "colvar {\n name d\n width 0.5\n lowerBoundary " + num(rebinned ? 1.5 : c.lower) + "\n upperBoundary " + num(rebinned ? 2.5 : c.upper) + "\n" + (c.expand ? " expandBoundaries on\n" : "") +
+    s += "colvar {\n name d\n width 0.5\n lowerBoundary " + num(rebinned || c.gridblock ? 1.5 : c.lower) + "\n upperBoundary " + num(rebinned || c.gridblock ? 2.5 : c.upper) + "\n" + (c.expand ? " expandBoundaries on\n" : "") +
          " distance {\n group1 { atomNumbers 1 }\n group2 { atomNumbers 2 }\n }\n}\n";
   }
   if (c.kind == 2)
-    s += "colvar {\n name e\n width 0.5\n lowerBoundary 1.0\n upperBoundary 2.0\n distance {\n group1 { atomNumbers 3 }\n group2 { atomNumbers 4 }\n }\n}\n";
+    s += std::string("colvar {\n name e\n width 0.5\n lowerBoundary ") + (c.gridblock ? "1.5" : "1.0") + "\n upperBoundary 2.0\n distance {\n group1 { atomNumbers 3 }\n group2 { atomNumbers 4 }\n }\n}\n";
   s += std::string("metadynamics {\n name m\n colvars d") + (c.kind == 2 ? " e" : "") + "\n hillWeight 0.5\n newHillFrequency " + std::to_string(c.hill_freq) + "\n";
   if (c.hill_width > 0) s += " hillWidth " + num(c.hill_width) + "\n";
   else s += " gaussianSigmas " + num(c.sigma) + (c.kind == 2 ? " " + num(c.sigma) : "") + "\n";
@@ -47,6 +48,8 @@ static std::string conf_text(Conf const &c, bool rebinned = false)
   if (c.keep_hills) s += " keepHills on\n";
   if (rebinned) s += " rebinGrids on\n";
   if (c.well_tempered) s += " wellTempered on\n biasTemperature 1500.0\n";
+  if (c.gridblock) s += " grid {\n lowerBoundary " + num(c.lower) + (c.kind == 2 ? " 1.0" : "") + "\n upperBoundary " + num(c.upper) + (c.kind == 2 ? " 2.0" : "") +
+                         "\n width 0.5" + (c.kind == 2 ? " 0.5" : "") + "\n }\n";
   s += "}\n";
   return s;
 }
@@ -146,6 +149,8 @@ int main(int argc, char **argv)
       {"nogrids-distanceVec", 3, false, 1, 0, 0, 0.4, false, false, false, 0, 0},
       {"grids-expandBoundaries", 0, true, 1, 0, 1.0, 0, false, false, true, 1.0, 3.0},
       {"grids-keepHills-rebin-narrower", 0, true, 1, 0, 1.0, 0, true, false, false, -4.0, 9.0, true},
+      {"grids-from-a-grid-block", 0, true, 1, 0, 1.0, 0, false, false, false, 1.0, 3.0, false, true},
+      {"grids-2d-from-a-grid-block", 2, true, 1, 0, 2.0, 0, false, false, false, 1.0, 3.0, false, true},
   };
   long nw = 1;
   for (int i = 0; i < L; i++) nw *= NL;
